@@ -3,6 +3,7 @@
 # 1. confirms in a scratch worktree: builds, existing suite passes with the patch, demo fails with it and passes without
 # 2. runs ./check <prop> with VERIF_REPO pointing at the scratch worktree with the patch (never touches /repo)
 prop=$1; dir=$2; tier=${3:-quick}
+V="$(cd "$(dirname "$(readlink -f "$0")")/.." && pwd)"
 export GOFLAGS=-mod=mod GOPROXY=off
 wt=/tmp/confirm.$$
 git -C /repo worktree add -q --detach $wt HEAD || exit 2
@@ -19,12 +20,12 @@ race=""; grep -q -- "-race" $dir/README.md 2>/dev/null && [ "${prop}" = "C19" ] 
 echo "CONFIRM:$res"
 # the check runs against the scratch worktree with the patch applied (VERIF_REPO): /repo is never touched
 ( cd $wt && git apply $dir/patch.diff ) || { echo "cannot re-apply"; git -C /repo worktree remove --force $wt; exit 2; }
-cd /verif
+cd $V
 start=$(date +%s)
-VERIF_REPO=$wt VERIF_SEED=${VERIF_SEED:-1} timeout 3000 ./check $prop --tier $tier > /verif/out/mutant.$prop.log 2>&1
+VERIF_REPO=$wt VERIF_SEED=${VERIF_SEED:-1} timeout 3000 ./check $prop --tier $tier > $V/out/mutant.$prop.log 2>&1
 rc=$?
 git -C /repo worktree remove --force $wt
 end=$(date +%s)
 echo "CHECK $prop tier=$tier exit=$rc secs=$((end-start))"
-grep -m3 "VIOLATION\|CHECK-ERROR\|^OK" /verif/out/mutant.$prop.log | cut -c1-300
+grep -m3 "VIOLATION\|CHECK-ERROR\|^OK" $V/out/mutant.$prop.log | cut -c1-300
 # evidence/<prop>.json now describes the mutant run: regenerate it from /repo before committing
